@@ -555,16 +555,25 @@ pub fn replay<S: Scenario>(sc: &S, choices: &[Choice]) -> Result<(Vec<(Choice, S
             return Ok((trace, Err(e)));
         }
     }
-    // finish remaining tasks in default order
+    // finish remaining tasks with the scenario's default choices
+    let mut last = choices.last().map(|c| c.task);
     loop {
         let parked = run.parked();
         if parked.is_empty() {
             break;
         }
-        let (t, label) = parked[0].clone();
+        let Some(c) = sc.choices(&ctx, &parked, last).first().copied() else {
+            return Ok((trace, Err(format!("deadlock: tasks parked at {parked:?} but no choice is enabled"))));
+        };
+        let label = run.label(c.task).unwrap_or_default();
         let h = sc.state_hash(&ctx);
-        run.release(t, Go::Proceed, h);
-        trace.push((Choice::run(t), label));
+        if c.stop {
+            run.stop(c.task);
+        } else {
+            run.release(c.task, c.go, h);
+        }
+        last = Some(c.task);
+        trace.push((c, label));
     }
     let stopped = run.stopped.clone();
     let r = sc.check(ctx, run.results, &stopped, &trace);
